@@ -177,6 +177,11 @@ def _printed_in_parens(body, m, qv, cv):
     return all("({" in t for t in w)
 
 
+def sym_subterms(t):
+    from ..sym import subterms
+    return subterms(t)
+
+
 def rule_lists(ctx):
     fx = ctx.facts
     g = grammar.load(fx, "fol")
@@ -213,6 +218,12 @@ def rule_lists(ctx):
     qb = printers.display_impl(fx, "fol", "Quantification")
     qp = printers.evaluate(fx, qb)
     lits = [i[1] for _, _, i in qp.out if i[0] == "write"]
+    from .. import leaves
+    vw = [(loops, item) for _, loops, item in qp.out if item[0] == "write" and item[1] == " {var}"]
+    okv = bool(vw)
+    for loops, item in vw:
+        okv = okv and leaves.over_all(loops, ("place", "self.0.variables"), item[2]) == (("ctor", "Format", (("0", ("each", ("place", "self.0.variables"))),)),)
+    ctx.add("LIST", "Quantification:every-variable", okv, ctx.site(qb), "the variable list is written by one loop over all of `variables` (no filter / dedup / skip)")
     ctx.add("LIST", "Quantification", lits == ["forall", "exists", " {var}"], ctx.site(qb), "a quantification is the quantifier followed by ` variable` for every variable: %s" % lits)
     ab = printers.display_impl(fx, "fol", "AnnotatedFormula")
     ap = printers.evaluate(fx, ab)
@@ -221,4 +232,14 @@ def rule_lists(ctx):
             "role, optional (direction) unless universal, optional [name] unless empty, `: `, formula: %s" % conds)
 
 
-RULES = [rule_tokens, rule_precedence, rule_lists]
+def rule_dispatch(ctx):
+    from .. import prec
+    F = "syntax_tree::fol::sigma_0::"
+    n = prec.rule_dispatch(ctx, "fol", "IntegerTerm", [("UnaryOperation", "op", F + "UnaryOperator", ("arg",), "fmt_unary"),
+                                                       ("BinaryOperation", "op", F + "BinaryOperator", ("lhs", "rhs"), "fmt_binary")], group="PRN-P")
+    n += prec.rule_dispatch(ctx, "fol", "Formula", [("UnaryFormula", "connective", F + "UnaryConnective", ("formula",), "fmt_unary"),
+                                                    ("BinaryFormula", "connective", F + "BinaryConnective", ("lhs", "rhs"), "fmt_binary")], group="PRN-P")
+    ctx.floor("PRN-P", "dispatch_cases", n, 8)
+
+
+RULES = [rule_tokens, rule_precedence, rule_dispatch, rule_lists]
